@@ -360,6 +360,15 @@ def unit_deltas(prop):
     return unit
 
 
+def unit_deltas_init(prop):
+    def unit(tier, known):
+        from contracts import post_deltas as C
+        jobs = [("contracts.post_deltas", "generate_init", (prop, nd)) for nd in (0, 1, 2, 3)]
+        return run_parallel("deltas_init", jobs, to_case=C.to_case, replay_module="rtc.c15")
+    unit.__name__ = "deltas_init"
+    return unit
+
+
 def unit_stack(prop):
     def unit(tier, known):
         from contracts import post_stack as C
@@ -370,7 +379,7 @@ def unit_stack(prop):
 
 
 UNITS = {
-    "C15": [unit_deltas("C15"), unit_stack("C15")],
+    "C15": [unit_deltas("C15"), unit_stack("C15"), unit_deltas_init("C15")],
     "C07": [unit_supports("C07", "tri"), unit_supports("C07", "fbank")],
     "C03": [unit_si("C03", w) for w in ("chunk", "handle_skip", "preamble", "finalize", "full", "geometry")] + [unit_si_frame("C03", w) for w in ("fill", "frame", "dft", "idft")],
     "C13": [_lazy("contracts.shorten", "unit_bit_reader", "C13")],
